@@ -26,6 +26,7 @@ import Mathlib.Tactic.Ring
 import Mathlib.Tactic.Linarith
 import QV.Model.Stats
 import QV.Lemmas.Stats
+import QV.Lemmas.Unbiased
 
 namespace QV.Props
 namespace C13
@@ -663,6 +664,91 @@ theorem C13_sample (env : Env σ) (f : σ → List ℝ) (k ns : ℕ) (init : Opt
          { numSamples := ns, k := k, init := init, overwrite := ow }) := rfl
 
 end sample
+
+
+/-! ### C13.9 — the reported mean under a stationary sampler (composition with C05; used by C08/C09)
+
+`Stats.drawsProg` is the loop of `draws` with the `i`-th sampler call made a probabilistic program (`QV.Model.StatsProg`);
+`Stats.recEnv` turns one of its outcomes into the recorded sampler that `obsStatistics` reads.  No `Prog` of the whole
+`statistics` call exists in `QV.Model.Stats` (the sampler is a recorded function there), so the statement has two halves:
+(i) for EVERY recorded execution of `T` draws the dictionary `obsStatistics` returns has the one-pass mean of the drawn values
+(`C13_statistics_one_pass` on `recEnv`) and the sampler calls carry `k = [burn_in, steps, …]`; (ii) the expectation of that
+mean over the joint law of the `T` threaded draws. -/
+
+section stationary
+open Prog
+variable {σ : Type}
+
+theorem mean_flatten_const (c : ℕ) (L : List (List ℝ)) (hlen : ∀ ys ∈ L, ys.length = c) :
+    mean L.flatten = (L.map List.sum).sum / ((L.length * c : ℕ) : ℝ) := by
+  unfold mean
+  rw [length_flatten_const c L hlen, List.sum_flatten]
+
+/-- **C13.9** (expectation of the reported mean).  Let the `i`-th call `nn_state.sample(k_i, initial_state=chains,
+overwrite=True)` of the statistics loop be the program `sampleK k_i chains` and let the distribution `μ` of the chain
+states be invariant under every such call.  For an observable `F` returning one value per chain (`c ≥ 1` chains), any
+`num_samples ≥ 1`, `burn_in`, `steps`, and the caller's `initial_state` drawn from `μ`:
+(i) every execution's dictionary is the one-pass statistics of the `T·c` drawn values, `T = ⌈num_samples/c⌉`, with the
+`k` schedule `[burn_in, steps, …, steps]`, and (ii) the EXPECTATION of the reported mean over the joint law of the `T`
+successive (dependent: the chains continue) draws is the `μ`-average of the per-batch mean of `F` — whatever `burn_in`,
+`steps`, `num_samples` are. -/
+theorem C13_mean_stationary [Fintype σ] [DecidableEq σ] (sampleK : ℕ → σ → Prog ℝ σ) (μ : σ → ℝ)
+    (hinv : ∀ k w, ∑ v, μ v * (sampleK k v).law w = μ w)
+    (F : σ → List ℝ) (c : ℕ) (hc : 1 ≤ c) (hF : ∀ st, (F st).length = c)
+    (ns nc burnIn steps : ℕ) (hns : 1 ≤ ns) (ow : Bool) (dflt : σ) :
+    ∃ T, numTimeSteps ns c = .ok T ∧ 1 ≤ T ∧ ns ≤ T * c ∧
+      (∀ (s₀ : σ) (sts : List σ), sts.length = T →
+        ∃ calls, obsStatistics (recEnv c sts dflt) F ⟨ns, nc, burnIn, steps, some s₀, ow⟩
+            = .ok (onePass ((sts.map F).flatten), calls)
+          ∧ calls.map (·.k) = burnIn :: List.replicate (T - 1) steps) ∧
+      ∑ s₀, μ s₀ * (drawsProg sampleK burnIn steps T 0 s₀).expect (fun sts => mean ((sts.map F).flatten))
+        = ∑ s, μ s * mean (F s) := by
+  obtain ⟨T, hT⟩ := numTimeSteps_ok ns c hc
+  have hTpos := C13_count_pos _ _ _ hT hns
+  obtain ⟨_, hge, _⟩ := C13_count _ _ _ hT
+  refine ⟨T, hT, hTpos, hge, ?_, ?_⟩
+  · intro s₀ sts hlen
+    have hcs : (chainSetup (recEnv c sts dflt) (⟨ns, nc, burnIn, steps, some s₀, ow⟩ : Args σ)).2 = c := rfl
+    obtain ⟨T', hT', _, h1, _, _⟩ := C13_statistics_one_pass (recEnv c sts dflt) F
+      ⟨ns, nc, burnIn, steps, some s₀, ow⟩ hns (by rw [hcs]; exact hc) (by intro st; rw [hcs]; exact hF st)
+    rw [hcs] at hT'
+    have hTT : T' = T := by rw [hT] at hT'; exact (Except.ok.inj hT').symm
+    subst hTT
+    simp only [hcs] at h1
+    generalize (chainSetup (recEnv c sts dflt) (⟨ns, nc, burnIn, steps, some s₀, ow⟩ : Args σ)).1 = ch0 at h1
+    have hA : (draws (recEnv c sts dflt) c burnIn steps T' 0 ch0).map (fun d => F d.2) = sts.map F := by
+      have := draws_recEnv_all c sts dflt burnIn steps ch0
+      rw [hlen] at this
+      conv_rhs => rw [← this]
+      rw [List.map_map]
+      rfl
+    refine ⟨(draws (recEnv c sts dflt) c burnIn steps T' 0 ch0).map (·.1), ?_, ?_⟩
+    · rw [h1, hA]
+    · have := C13_schedule (recEnv c sts dflt) c burnIn steps T' hTpos ch0
+      rw [List.map_map]
+      exact this
+  · have hcR : (c : ℝ) ≠ 0 := by positivity
+    have hTR : (T : ℝ) ≠ 0 := by positivity
+    have hcongr : ∀ s₀, (drawsProg sampleK burnIn steps T 0 s₀).expect (fun sts => mean ((sts.map F).flatten))
+        = (drawsProg sampleK burnIn steps T 0 s₀).expect (fun sts => (sts.map (fun st => (F st).sum)).sum)
+            / ((T * c : ℕ) : ℝ) := by
+      intro s₀
+      rw [← Prog.expect_div_const]
+      refine drawsProg_expect_congr sampleK burnIn steps T 0 s₀ _ _ (fun l hl => ?_)
+      rw [mean_flatten_const c (l.map F) (by
+        intro ys hys
+        obtain ⟨st, _, rfl⟩ := List.mem_map.mp hys
+        exact hF st), List.map_map, List.length_map, hl]
+      rfl
+    simp only [hcongr, ← mul_div_assoc]
+    rw [← Finset.sum_div, drawsProg_expect_sum sampleK μ hinv]
+    have hm : ∀ s, mean (F s) = (F s).sum / c := by intro s; rw [mean, hF s]
+    simp only [hm, ← mul_div_assoc]
+    rw [← Finset.sum_div]
+    push_cast
+    field_simp
+
+end stationary
 
 /-! ### Non-vacuity -/
 
